@@ -87,6 +87,7 @@ func (m citModel) dump() string {
 	o += " Arr=" + m.ints(0, 2, 4) + " Sl=3/6:" + m.ints(0, 6, 3) + ",903,904,905"
 	o += " M=2:a=" + it(m.v(9, 0)) + ",b=" + it(m.v(10, 0)) + " By=3/8:" + by('a', g0) + "zzzzz"
 	o += " L=3/3:" + m.ints(0, 11, 3) + " D=1:a=" + it(m.v(14, 0)) + ",b=0 Lv=" + it(m.v(15, 0))
+	o += " MI=2:1=" + it(m.v(16, 0)) + ",2=" + it(m.v(17, 0))
 	o += " S.In=" + it(m.v(20, 1)) + ".s" + it(g1) + " S.Arr=" + m.ints(1, 21, 4) + " S.Sl=3/6:" + m.ints(1, 25, 3) + ",803,804,805"
 	o += " S.M=2:a=" + it(m.v(28, 1)) + ",b=" + it(m.v(29, 1)) + " S.By=3/8:" + by('A', g1) + "yyyyy"
 	o += " S.Ins=2:" + it(m.v(30, 1)) + ".i" + it(g1) + "," + it(m.v(31, 1)) + ".i" + it(g1)
@@ -152,6 +153,7 @@ type auPart struct {
 	noise  string   // a message that fails on its own
 	temp   string   // victim temperature when the part runs
 	lone   bool
+	keepFn string // the attacker realm's KeepN: keeps a reference to a victim container (follow-up of a recovered write)
 }
 
 type auTx struct {
@@ -314,7 +316,11 @@ func (w *authWorld) drawInst(realmOK, staticOK bool) c07Inst {
 		break
 	}
 	w.nVal++
-	return c07Inst{prog: p, wrap: c.Weighted(c07WrapWeights), val: 7_000_000 + w.nVal*11}
+	wrap := c.Weighted(c07WrapWeights)
+	if p.noWrap {
+		wrap = 0 // the program brings its own recover()
+	}
+	return c07Inst{prog: p, wrap: wrap, val: 7_000_000 + w.nVal*11}
 }
 
 func (w *authWorld) newRaider() *raider {
@@ -392,6 +398,16 @@ func (w *authWorld) genTx(justModified bool) *auTx {
 		m, in, kind := w.attackMsg(signer)
 		t.msgs = append(t.msgs, m)
 		t.parts = append(t.parts, auPart{atk: in, caller: kind, temp: temp(sameTx)})
+		// a later message of the same tx dirties the container the recovered write touched
+		switch f := in.prog.follow; {
+		case strings.HasPrefix(f, "keep:") && len(w.raiders) > 0:
+			rd := w.raiders[0]
+			t.msgs = append(t.msgs, vm.NewMsgCall(w.acts[signer].addr, nil, rd.path, "Keep"+f[5:], nil))
+			t.parts = append(t.parts, auPart{keepFn: rd.name + ".Keep" + f[5:]})
+		case strings.HasPrefix(f, "bump:"):
+			t.msgs = append(t.msgs, w.legitMsg(signer, "Bump"+f[5:]))
+			t.parts = append(t.parts, auPart{legit: "Bump" + f[5:]})
+		}
 	}
 	addLegit := func(signer string) {
 		l := w.drawLegit()
@@ -402,7 +418,7 @@ func (w *authWorld) genTx(justModified bool) *auTx {
 	case 0: // the attack is the only message
 		t.signer = atkSigner
 		addAtk(t.signer, false)
-		t.parts[0].lone = true
+		t.parts[0].lone = len(t.parts) == 1
 	case 1: // a legitimate mutation
 		t.signer = user
 		addLegit(t.signer)
@@ -456,6 +472,8 @@ func (w *authWorld) genTx(justModified bool) *auTx {
 			ds = append(ds, fmt.Sprintf("%s{%s}@%s", p.caller, p.atk.name(), p.temp))
 		case p.noise != "":
 			ds = append(ds, "noise("+p.noise+")")
+		case p.keepFn != "":
+			ds = append(ds, p.keepFn)
 		default:
 			ds = append(ds, "deploy "+t.deploy.name)
 		}
@@ -612,6 +630,7 @@ func runAuthority(c *kernel.Choices, p kernel.Params) *kernel.Result {
 		mayAlloc := false     // a successful program of this block may allocate under the victim's id by design
 		var okWrites []string // forbidden-write programs whose tx succeeded in this block
 		unrecovered := 0      // ... of which the program has no recover() of its own
+		refMoved := false     // a successful program keeps (or drops) a reference to a victim object: refcount / escape metadata of the victim's records move by design
 		var blockDesc []string
 		for i := 0; i < ntx && !w.stop; i++ {
 			t := w.genTx(legitOK)
@@ -705,6 +724,23 @@ func runAuthority(c *kernel.Choices, p kernel.Params) *kernel.Result {
 						if pt.atk.prog.mayAlloc {
 							mayAlloc = true
 						}
+						if pt.atk.prog.keepsRef {
+							refMoved = true
+						}
+						if k := pt.atk.prog.bump; k > 0 {
+							// the program itself cross-called the victim's mutator (authority = citadel)
+							w.model.apply(fmt.Sprintf("Bump%d", k-1))
+							legitOK = true
+							w.r.Probe("legit_ok")
+						}
+					}
+				case pt.keepFn != "":
+					switch {
+					case r.ok():
+						refMoved = true
+						w.r.Probe("victim_reference_kept_by_later_message")
+					case failedHere:
+						w.r.Probe("keeping_a_victim_reference_refused")
 					}
 				default: // deployment of another attacker realm
 					if !r.ok() {
@@ -739,7 +775,11 @@ func runAuthority(c *kernel.Choices, p kernel.Params) *kernel.Result {
 				w.r.Probe("records_under_victim_id_allocated_by_unlisted_program")
 			}
 		}
-		if !legitOK {
+		if refMoved && !legitOK {
+			// byte identity is off (reference counts / escape flags of the victim's records move when
+			// another realm keeps or drops a reference); the value-level oracle below still applies
+			w.r.Probe("blocks_with_victim_references_kept")
+		} else if !legitOK {
 			var bad []string
 			for _, k := range changed {
 				bad = append(bad, "changed "+k)
@@ -851,6 +891,13 @@ func (w *authWorld) judge(height int64, t *auTx, pt auPart, r txResult, failedHe
 			w.r.Probe("copy_write_ok:" + pr.path + "/" + pr.op)
 		} else {
 			w.r.Probe("copy_write_refused:" + pr.path + "/" + pr.op)
+		}
+	case clsResidue:
+		// judged with the block and after the restart: Dump() must equal the model
+		if r.ok() {
+			w.r.Probe("recovered_write_then_dirty_ok:" + pr.op)
+		} else {
+			w.r.Probe("recovered_write_then_dirty_failed:" + reason)
 		}
 	case clsObserve:
 		if r.ok() {
